@@ -73,6 +73,8 @@ def nontrivial(req, obs):
         return f[1] != "-" and (f[6] != "0" or "1" in f[2])   # a decorator and a received message or a refused Subscribe
     if f[0] == "rt":
         return f[5] != "-"
+    if f[0] == "rto":
+        return f[2] != "0" and f[3] != "-"
     if f[0] == "ch":
         return f[4] != "0" and (f[1] != "-" or f[2] != "-")
     return False
@@ -88,6 +90,8 @@ PROP = {
         "Wm.Decor.delay_one_source",
         "Wm.Decor.delay_stamp_once",
         "Wm.Decor.delay_for_until_agree",
+        "Wm.Decor.delay_until_zone_agree",
+        "Wm.Decor.wall_clock_relabelled_witness",
         "Wm.Decor.delay_batch_error_iff",
         "Wm.Decor.delay_batch_ok",
         "Wm.Decor.delay_batch_one_call_or_none",
@@ -124,6 +128,7 @@ PROP = {
         "Wm.Decor.metrics_handler_once_partial",
         "Wm.Decor.handler_applied_twice_witness",
         "Wm.Decor.router_metrics_exact",
+        "Wm.Decor.metrics_handler_order_independent",
         "Wm.Decor.metrics_handler_each_application",
     ],
     # re-proved on every run against the bodies of applyDelay, of the metrics publisher decorator's Publish and of the handler
@@ -142,7 +147,8 @@ PROP = {
             "7 messages (no delay / pre-set metadata / context For / context Until / metadata+context / empty delayed_for / zero Delay), plus "
             "seeded random cases: stack depth 0..3 (incl. the same metrics decorator 2-3 times, two delay publishers), generator "
             "nil | error | Delay{} | For(d) | Until(t) | error-for-odd-messages, AllowNoDelay on/off, 0..6 messages mixing pre-set metadata "
-            "(valid, malformed, empty), context For/Until with past, zero, 1 ns, fractional, days and ~250 years, 1..4 Publish calls with "
+            "(valid, malformed, empty), context For/Until with past, zero, 1 ns, fractional, days and ~250 years, Until(t) with t carrying UTC or a non-UTC "
+            "location (+02:00, -05:00, +05:30, -00:30: what time.Now() gives in a non-UTC process or a parsed offset timestamp), 1..4 Publish calls with "
             "inner failure scripts, Close (with error); 10% of the random cases re-publish the same message objects and 10% publish an empty "
             "batch (finding D15, reported as KNOWN-FINDING). sub: every subscriber stack of depth 0..3 over {transform a, transform b, "
             "metrics} x 11 programs (ack/nack/late ack, Close error, no message, Subscribe refused, Subscribe refused once or twice and then accepted "
@@ -155,7 +161,10 @@ PROP = {
             "middleware once (in 1 of 8 random cases twice = finding handler-middleware-applied-twice, reported as KNOWN-FINDING; in 1 of 16 "
             "not at all = outside the property, model conformance only), handler outcome sequences over success "
             "(0-2 outputs) / error / panic / pass-through (the handler returns the CONSUMED message object itself, alone or between 0-2 "
-            "fresh outputs) with publisher failure scripts. ch: a message received through a subscriber stack is handed, same object, to a "
+            "fresh outputs) with publisher failure scripts. rto: OVERLAPPING invocations of one Router handler (per round the handler holds every invocation until all have started and lets "
+            "them return together with scripted success / error / panic; 40 rounds x 4-10 invocations per scenario, 120 rounds in the thorough "
+            "tier), each scenario run in a child process so that a Go fatal error (concurrent map writes) is observed as `crashed:` (rule "
+            "overlapping_invocations_crashed_process) instead of killing the harness. ch: a message received through a subscriber stack is handed, same object, to a "
             "publisher stack (all pairs of stacks of depth <= 2 over {transform, metrics} + random pairs of depth <= 3): the subscribe mark "
             "left by the metrics subscriber decorator must not be taken for the publish mark. Prometheus: "
             "private registry, Gather() sample COUNTS per sorted label set compared with the harness' own counts (probe above the metrics "
@@ -176,6 +185,8 @@ PROP = {
         "reading inferred from the stamp and checks that it lies in the bracket (2 s / 1 s slack)",
     ],
     "assumptions": [
+        "a time rendered by delay.Message is compared by the instant it denotes; the model also predicts its rendering (suffix Z for a "
+        "UTC time, +hh:mm for a time that carries another location), which only the model comparison looks at",
         "time.Duration does not saturate: |t - now| < 2^63 ns (~292 years) for delay.Until(t); the generator stays within 250 years",
         "'delayed-for and delayed-until agree' is demanded for delays built by delay.For / delay.Until; the zero value delay.Delay{} "
         "(until = 0001-01-01T00:00:00Z, for = 0s) is stamped as it is and only its precedence is checked",
